@@ -76,6 +76,8 @@ pub enum Op {
     TmpGet { vals: Vec<MVal>, i: u64 },
     /// Rust: start iterating (`into_iter`), take `k` items, push `v` through the handle, collect the rest
     IterWithPush { h: usize, k: u64, v: MVal },
+    /// script `get` with the handle of slot `h` *moved* into the call (the slot is empty afterwards)
+    GetMove { h: usize, i: u64 },
     /// Rust: take the handle out of slot `h` and consume it with `into_iter()`; after `k` items
     /// drop the handle in slot `alias` (often the only other handle of the same list)
     IterConsume { h: usize, alias: usize, k: u64 },
@@ -180,6 +182,13 @@ impl SeqModel {
                 self.slots[*dst] = Some(id);
                 Obs::Unit
             }
+            Op::GetMove { h, i } => match self.lid(*h) {
+                Some(id) => {
+                    self.slots[*h] = None;
+                    Obs::OptVal(self.heap.lists[id].get(*i as usize).cloned())
+                }
+                None => Obs::Skipped,
+            },
             Op::IterConsume { h, alias, .. } => match self.lid(*h) {
                 Some(id) => {
                     let v = self.heap.lists[id].clone();
